@@ -643,3 +643,71 @@ where
         Ok(())
     }
 }
+
+/// Verification hook (`--cfg gluon_verif`): read-only access to the otherwise private token
+/// and layout streams. Not compiled in normal builds.
+#[cfg(gluon_verif)]
+pub mod verif {
+    use super::*;
+
+    /// One entry per token: `Ok((start, end, debug rendering))` or `Err((start, end, message))`.
+    pub type Entry = Result<(u32, u32, String), (u32, u32, String)>;
+
+    /// The raw token stream of `input` followed by the errors the tokenizer recorded on the side.
+    pub fn tokens(input: &str) -> (Vec<Entry>, Vec<(u32, u32, String)>) {
+        let mut tokenizer = Tokenizer::new(input);
+        let mut out = Vec::new();
+        while let Some(t) = tokenizer.next() {
+            out.push(match t {
+                Ok(t) => Ok((
+                    t.span.start().absolute.to_usize() as u32,
+                    t.span.end().absolute.to_usize() as u32,
+                    format!("{:?}", t.value),
+                )),
+                Err(e) => Err((
+                    e.span.start().absolute.to_usize() as u32,
+                    e.span.end().absolute.to_usize() as u32,
+                    format!("{:?}", e.value),
+                )),
+            });
+        }
+        let errors = tokenizer
+            .errors
+            .iter()
+            .map(|e| {
+                (
+                    e.span.start().absolute.to_usize() as u32,
+                    e.span.end().absolute.to_usize() as u32,
+                    format!("{:?}", e.value),
+                )
+            })
+            .collect();
+        (out, errors)
+    }
+
+    /// The token stream after the layout algorithm (virtual block/semicolon/`in` tokens inserted).
+    /// Stops after the first layout error, like the parser does.
+    pub fn layout_tokens(input: &str) -> Vec<Entry> {
+        let mut tokenizer = Tokenizer::new(input);
+        let layout = Layout::new(&mut tokenizer);
+        let mut out = Vec::new();
+        for t in layout {
+            match t {
+                Ok((start, token, end)) => out.push(Ok((
+                    start.to_usize() as u32,
+                    end.to_usize() as u32,
+                    format!("{:?}", token),
+                ))),
+                Err(e) => {
+                    out.push(Err((
+                        e.span.start().to_usize() as u32,
+                        e.span.end().to_usize() as u32,
+                        format!("{}", e.value),
+                    )));
+                    break;
+                }
+            }
+        }
+        out
+    }
+}
